@@ -5,7 +5,7 @@ PROP = 'C08'
 LEVEL = 'exploration'
 TIERS = {
     'quick': {'runs': 3200, 'wall_per_run': 120},
-    'thorough': {'runs': 160000, 'wall_per_run': 120},
+    'thorough': {'runs': 160000, 'wall_per_run': 120, 'selftest': 400},
 }
 REQUIRED_PROBES = ['instance_processed_2plus_pages_with_lm_carry', 'page_after_predecessor',
                    'fault_swallowed_then_later_page_compared', 'multi_page_run_with_lm_carry', 'scenario_pool',
